@@ -96,7 +96,7 @@ func (c *connState) sends() int {
 func codeLabel(cc byte) string { return "code=" + ipmi.CompletionCode(cc).String() }
 
 func TestMetrics(t *testing.T) {
-	ev.Check(t, "TestMetrics", ev.PickN(300, 24000), func(t *rapid.T) {
+	ev.Check(t, "TestMetrics", ev.PickN(300, 6000), func(t *rapid.T) {
 		base := gather()
 		m := model{}
 		var conns []*connState
